@@ -102,6 +102,29 @@ impl Mon<'_> {
                 3 => 4096,
                 _ => self.rng.range(1, 70_000) as usize,
             };
+            if !got.is_empty() && self.rng.chance(1, 6) {
+                // finish with read_to_end after partial reads (a stream may specialise it)
+                let mut rest = vec![];
+                match s.read_to_end(&mut rest) {
+                    Ok(n) => {
+                        if n != rest.len() {
+                            self.bad(label, format!("{label}: read_to_end returned {n} but appended {} bytes", rest.len()));
+                            return;
+                        }
+                        got.extend_from_slice(&rest);
+                        self.out.obs.inc("views.read_to_end_after_partial");
+                        if s.size_left() != 0 || s.offset() != exp.len() as u64 {
+                            self.bad(label, format!("{label}: after read_to_end offset()={} size_left()={}", s.offset(), s.size_left()));
+                            return;
+                        }
+                        break;
+                    }
+                    Err(e) => {
+                        self.bad(label, format!("{label}: read_to_end error after {} bytes: {e}", got.len()));
+                        return;
+                    }
+                }
+            }
             let mut buf = vec![0u8; want];
             match s.read(&mut buf) {
                 Ok(0) => {
@@ -175,6 +198,26 @@ impl Mon<'_> {
                     }
                 }
                 Err(e) => self.bad("region.get_slice", format!("region.get_slice({o},{n}) on a {}-byte region: {e}", exp.len())),
+            }
+        }
+        if exp.len() >= 3 {
+            // adjacent slices [a,b) then [b,c) with another access to the same source in between
+            let a = self.rng.usize_below(exp.len() - 2);
+            let b = a + 1 + self.rng.usize_below(exp.len() - a - 2);
+            let c = b + 1 + self.rng.usize_below(exp.len() - b - 1).min(5000);
+            let b_end = b;
+            let first = r.get_slice(jbk::Offset::from(a as u64), b_end - a).map(|x| x.to_vec());
+            let mut head = vec![0u8; exp.len().min(10)];
+            let _ = r.stream().read(&mut head);
+            let second = r.get_slice(jbk::Offset::from(b as u64), c - b).map(|x| x.to_vec());
+            self.out.obs.inc("views.adjacent_slices");
+            match (first, second) {
+                (Ok(f), Ok(g)) => {
+                    if f != exp[a..b] || g != exp[b..c] {
+                        self.bad("region.get_slice", format!("adjacent slices [{a},{b}) and [{b},{c}) with a stream read in between: {} differs", if f != exp[a..b] { "the first" } else { "the second" }));
+                    }
+                }
+                (Err(e), _) | (_, Err(e)) => self.bad("region.get_slice", format!("adjacent slices: {e}")),
             }
         }
         if slices_first {
